@@ -65,6 +65,8 @@ type Engine struct {
 	Wraps map[ssa.Instruction][2]int
 	// AccessHook is called (checking mode) for every read extent on a slice: index+1, slice high bound, or low+N for binary.BigEndian reads.
 	AccessHook func(e *Engine, st *State, in ssa.Instruction, base ssa.Value, extent Lin)
+	// PostCallHook is called on every state in which a package-local call returns (result already bound to the call value).
+	PostCallHook func(e *Engine, st *State, in *ssa.Call, callee *ssa.Function)
 	// CallHook is called (checking mode) before a package-local call is evaluated.
 	CallHook func(e *Engine, st *State, in *ssa.Call, callee *ssa.Function)
 	dynThr    map[*ssa.Function]map[int64]bool
@@ -485,4 +487,67 @@ func (e *Engine) CurrentFn() *ssa.Function {
 		return nil
 	}
 	return e.stack[len(e.stack)-1].fn
+}
+
+// RootReturn is one return of the root function with its final state.
+type RootReturn struct {
+	St  *State
+	Ret *ssa.Return
+}
+
+// EvalMethodOn evaluates method fn in (a clone of) st with its receiver bound
+// to the value held by src (a by-value struct parameter/value, a pointer, or a
+// slice). It returns the callee's return states with the result expressions.
+type MethodRet struct {
+	St      *State
+	Ints    []Lin // integer results (Bad for others)
+	Results []ssa.Value
+}
+
+func (e *Engine) EvalMethodOn(st *State, fn *ssa.Function, src ssa.Value) []MethodRet {
+	s := st.Clone()
+	if len(fn.Params) == 0 {
+		return nil
+	}
+	p := fn.Params[0]
+	_, srcIsStruct := src.Type().Underlying().(*types.Struct)
+	if pt, ok := p.Type().Underlying().(*types.Pointer); ok && srcIsStruct {
+		// pointer receiver, value source: materialise a temporary object holding the value
+		obj := "Q" + e.vid(src)[1:]
+		e.copyLeaves(s, obj, e.aggKey(src), pt.Elem(), true)
+		e.fresh(s, p)
+		s.nonnil[e.vid(p)] = true
+		s.ptr[e.vid(p)] = Address{Obj: obj}
+	} else {
+		e.copyValue(s, p, src)
+		if _, isPtr := p.Type().Underlying().(*types.Pointer); isPtr {
+			s.nonnil[e.vid(p)] = true
+		}
+	}
+	saved := e.stack
+	fr := &frame{fn: fn}
+	_ = fr
+	rets, _ := e.Eval(fn, s, false, nil)
+	e.stack = saved
+	var out []MethodRet
+	for _, r := range rets {
+		mr := MethodRet{St: r.st, Results: r.ret.Results}
+		for _, v := range r.ret.Results {
+			if isInt(v.Type()) {
+				mr.Ints = append(mr.Ints, e.expr(r.st, v))
+			} else {
+				mr.Ints = append(mr.Ints, Lin{Bad: true})
+			}
+		}
+		out = append(out, mr)
+	}
+	return out
+}
+
+// IsNilResult / IsNonNilResult classify a result value in a return state.
+func (e *Engine) IsNilResult(st *State, v ssa.Value) bool    { return e.isNil(st, v) }
+func (e *Engine) IsNonNilResult(st *State, v ssa.Value) bool { return e.isNonNil(st, v) }
+func (e *Engine) AtomOfValue(v ssa.Value) Atom               { return e.atomOf(v) }
+func (e *Engine) NewGhost(name string, lo, hi int64) Atom {
+	return e.newAtom(name, Range{lo, hi, true, true})
 }
